@@ -212,7 +212,17 @@ fn parse_nd_rtr_options(buf: &mut Buffer) -> Result<NDOptions, Error> {
                 use std::convert::{TryFrom as _, TryInto as _};
                 let scaled_lifetime_plc = u16::from_be_bytes(value[0..=1].try_into().unwrap());
                 let lifetime = Duration::from_secs((scaled_lifetime_plc & !7).into());
-                let prefixlen = (scaled_lifetime_plc & 0x07) * 8 + 32;
+                /* RFC 8781 Section 4: Prefix Length Code */
+                let prefixlen: u16 = match scaled_lifetime_plc & 0x07 {
+                    0 => 96,
+                    1 => 64,
+                    2 => 56,
+                    3 => 48,
+                    4 => 40,
+                    5 => 32,
+                    // The receiver MUST ignore the PREF64 option if the code is not one of these.
+                    _ => return Err(Error::InvalidPacket),
+                };
                 let ip_octets =
                     <[u8; 16]>::try_from([&value[2..], &[0, 0, 0, 0]].concat()).unwrap();
                 let prefix = std::net::Ipv6Addr::from(ip_octets);
@@ -444,12 +454,21 @@ fn serialise_router_advertisement(a: &RtrAdvertisement) -> Vec<u8> {
                 v.serialise(&dnssl.v);
             }
             NDOptionValue::Pref64((lifetime, prefixlen, prefix)) => {
+                /* RFC 8781 Section 4: Prefix Length Code.  Other lengths cannot be advertised. */
+                let plc: u16 = match prefixlen {
+                    96 => 0,
+                    64 => 1,
+                    56 => 2,
+                    48 => 3,
+                    40 => 4,
+                    32 => 5,
+                    _ => continue,
+                };
                 v.serialise(PREF64.0);
                 v.serialise(2_u8);
                 let scaled_lifetime = u16::try_from(lifetime.as_secs() / 8)
                     .unwrap_or(u16::MAX)
                     .min(0x1fff);
-                let plc = ((prefixlen - 32) / 8) as u16;
                 v.serialise((scaled_lifetime << 3) | plc);
                 for i in 0..12 {
                     v.serialise(prefix.octets()[i])
